@@ -140,10 +140,18 @@ fn check_seq(seq: &[K], big: usize, key_subj: &stun_rs::HMACKey, key_raw: &[u8],
             subsets.push(verifiable.clone());
         }
     }
+    // sequences up to length 4: every construction route of every decoder configuration (builder calls in every order,
+    // repeated calls, clones, DecoderContext::default(), MessageDecoder::default()) must agree with the canonical decoder
+    let routes = if big == 0 && seq.len() <= 4 { Some(cu::all_routes(Some(key_subj), &cu::all_opts())) } else { None };
     for bad in &subsets {
         let macs: Vec<Mac> = (0..seq.len()).map(|i| if bad.contains(&i) { Mac::Bad } else { Mac::Good }).collect();
         let bytes = ref_encode_with(&lm, Some(key_raw), &macs);
         let replay = || json!({"kind": "sequence", "sequence": show(seq), "first_ordinary_is_data_of_bytes": big, "wrong_values_at": bad, "bytes": hex(&bytes)});
+        if let Some(rt) = &routes {
+            let n = cu::routes_agree(rt, &bytes, rep, &replay);
+            rep.add_extra("decoder_construction_routes_compared", n);
+            rep.sym("decoder-construction-routes");
+        }
         for o in cu::all_opts() {
             rep.eval();
             let dec = cu::decoder(o, Some(key_subj));
@@ -336,13 +344,13 @@ pub fn run(ctx: &RunCtx) -> i32 {
         rep,
         Finish {
             level: "exploration",
-            rule: format!("all {} sequences of length 0..=8 over {{ordinary, MI, SHA256, FINGERPRINT}} built by the reference codec; wrong-value variants: all subsets of verifiable attributes up to length {}, beyond that none / each single / all; each byte string decoded under all 16 option combinations and without context and compared with the 12-line admit rule; the agent's iterator compared on every sequence; every sequence of length 1..=5 (thorough 6) containing an ordinary attribute again with the first ordinary attribute a DATA blob of 1000 / 4100 / 20,000 / 65,000 bytes (wrong values: none / each single / all). Non-trivial = distinct (sequence, wrong-set, options) triple whose result agreed with the rule", total, full_subsets_upto),
+            rule: format!("all {} sequences of length 0..=8 over {{ordinary, MI, SHA256, FINGERPRINT}} built by the reference codec; wrong-value variants: all subsets of verifiable attributes up to length {}, beyond that none / each single / all; each byte string decoded under all 16 option combinations and without context and compared with the 12-line admit rule; the agent's iterator compared on every sequence; for sequences up to length 4 every construction route of every decoder configuration (builder calls in every order, a repeated call, clones of decoder and context, DecoderContext::default(), MessageDecoder::default()) must give the canonical decoder's result; every sequence of length 1..=5 (thorough 6) containing an ordinary attribute again with the first ordinary attribute a DATA blob of 1000 / 4100 / 20,000 / 65,000 bytes (wrong values: none / each single / all). Non-trivial = distinct (sequence, wrong-set, options) triple whose result agreed with the rule", total, full_subsets_upto),
             assumptions: vec![
                 "ordinary attributes are PRIORITY with distinct values".into(),
                 "with validation and no key an admitted MAC cannot validate (library contract), FINGERPRINT needs no key".into(),
                 "with the ordering rule disabled and validation on only 'all attributes or an error' is required".into(),
             ],
-            required_symbols: vec!["sequences", "agent-iterator-compared", "deep-sequences"],
+            required_symbols: vec!["sequences", "agent-iterator-compared", "deep-sequences", "decoder-construction-routes"],
             min_outcomes: 2,
             exhaustive: true,
             bounds: json!({"max_len": 8, "sequences": total, "full_subsets_upto_len": full_subsets_upto}),
